@@ -24,6 +24,11 @@ type Config struct {
 	// BoundS: virtual seconds after the last fault and last restart within
 	// which every pending delivery must have completed.
 	BoundS int `json:"boundS"`
+	// Dests: 2 = a second sync handler (same source, destination "dst2",
+	// queue "queue2", no faults of its own) is constructed concurrently with
+	// the first one in every generation; every acknowledged upload must
+	// reach both destinations.
+	Dests int `json:"dests,omitempty"`
 	// ReportKnown: report a violation even when its signature is a listed
 	// known finding (set in the replay files of those findings).
 	ReportKnown bool `json:"reportKnown,omitempty"`
@@ -88,6 +93,9 @@ func gen(tier string, run int, r *simcore.Rand) *harness.Plan {
 		}
 		cfg.Validate = r.Bool(0.03)
 	}
+	if cfg.Ctor == "config" && r.Bool(0.25) {
+		cfg.Dests = 2
+	}
 	// (durations are not multiples of the handler's 5 s round: synctest fires
 	// fake timers that expire at the same instant in random order)
 	cfg.SlowMS = []int{503, 3011, 3011, 8053}[r.Intn(4)]
@@ -99,6 +107,12 @@ func gen(tier string, run int, r *simcore.Rand) *harness.Plan {
 		if cfg.Blobs[i].Size < 4 {
 			cfg.Blobs[i].Size = 4 + i
 		}
+	}
+
+	// now and then a blob at the size limit (blobserver.MaxBlobSize, 16 MiB:
+	// the largest blob a source accepts), or one byte below it
+	if r.Bool(0.02) {
+		cfg.Blobs[r.Intn(len(cfg.Blobs))].Size = 16<<20 - r.Intn(2)
 	}
 
 	nRestarts := []int{0, 0, 1, 1, 1, 2, 2, 3}[r.Intn(8)]
